@@ -41,6 +41,9 @@ CHECKS = {
  'C11': ('BX', 'model_checking', T_BX + 'totality (no panic) + differential (list vs list minus rejected lines; hosts line vs ||host^)',
    'Every string of <= 4 (quick) / 5 (thorough) symbols over a 22-symbol structural alphabet through all parser entry points, the single-edit neighbourhood of 145 real rule spellings, metadata cut-off alignments, line independence on all lists of <= 3/4 good+junk lines, hosts-format equivalence, rule-type options.',
    'css-validation feature is off, as in the baseline configuration.', 'DESIGN §4 C11'),
+ 'C12': ('BX', 'model_checking', T_BX + 'totality + comparison with the url crate, idna, and an independent eTLD+1 computation from the same PSL data; differential preparsed vs new',
+   'All strings of <= 5 (quick) / 6 (thorough) symbols over an 18-symbol URL alphabet behind 6 prefixes (1.2e7 / 2.2e8) for totality and internal consistency; a structured universe of 32 256 (quick) / 950 400 (thorough) URLs x initiators x types for host, party, scheme, type and preparsed equality.',
+   'Upper-case hosts, control characters in the authority and hosts the url crate canonicalises are Unspecified for host extraction and party.', 'DESIGN §4 C12'),
  'C13': ('BX', 'model_checking', T_BX + 'compared with the redirect selection rule written from the property text (set-valued on ties)',
    'All ordered lists of <= 3 rules (thorough: + lists of 4 starting with an a-spelling) of a 48-rule redirect alphabet (every resource kind, priority spelling, exceptions) x two resource stores x 5 requests.',
    'Exception naming the same resource with a different priority suffix, and whether a redirect exception unblocks, are Unspecified.', 'DESIGN §4 C13'),
@@ -50,9 +53,15 @@ CHECKS = {
  'C15': ('BX', 'model_checking', T_BX + 'compared with CSP set algebra written from the property text; all list orders enumerated',
    'All ordered lists of <= 3 (quick) / 4 (thorough) rules of a 24-rule csp alphabet, every tag subset, 8 URLs x all 19 request-type strings.',
    'Per-rule applicability from the real matcher (differential).', 'DESIGN §4 C15'),
+ 'C16': ('BX', 'model_checking', T_BX + 'compared with an independent string-level scoping model (no hashes) using addr::psl directly',
+   'All ordered lists of <= 2 (quick) / connected triples (thorough) of a 514-rule cosmetic alphabet (36 location forms x 10 bodies x ##/#@#) x 13 page hosts x 3 generichide configurations; hide selectors, procedural actions, exceptions, generichide and the injected script (multiset of invocations) compared.',
+   'Only-negated locations with an action or +js body, and a negated location of one rule against another rule providing the same body, are Unspecified for that body.', 'DESIGN §4 C16'),
  'C17': ('BX', 'model_checking', T_BX + 'compared with an independent CSS-identifier key reference; partition check',
    'All subsets of <= 3 (quick) / 4 (thorough) of a 66-selector alphabet (prefix/extension names, escapes, hex escapes, non-ASCII), each engine queried with every subset of <= 2 names as classes, as ids and of exceptions.',
    'Malformed escapes are outside the domain (executed, must not panic).', 'DESIGN §4 C17'),
+ 'C18': ('BX', 'model_checking', T_BX + 'subset test, graph reachability and an independent +js argument grammar with a strict JSON-literal reader; all injection orders enumerated',
+   'All 256x256 permission pairs directly and through the full engine path; every dependency graph on 3 nodes (110 592 base graphs) x node permissions x injection lists in every order through the public get_scriptlet_resources (hash order enumerated, not drawn); every argument string of <= 3 (quick) / 4 (thorough) symbols over 13 symbols x 8 spellings x 3 positions; all pairs of 20 +js bodies for exceptions.',
+   'Ambiguous +js spellings (unbalanced quotes, text after a closing quote, runs of backslashes before a separator) are Unspecified; the emitted literal must still be well-formed.', 'DESIGN §4 C18'),
  'C19': ('SX+BX', 'model_checking', 'stateless DFS over thread interleavings of the real Sync build with iterative preemption bounding (CHESS-style), blocking decided by the real Mutex::try_lock through a cfg-guarded seam; plus cross-configuration differential',
    'Five thread plans (2x2, 3x1, 3x2, 2x3, mixed) of real OS threads on one shared engine, all schedules with <= 2 (quick) / <= 3-4 (thorough) preemptions; every answer compared with the sequential answer; deadlock, panic and poisoning detected; every violating schedule replayed twice. The single-thread build writes answer hashes for 2 551 rule lists, the thread-safe build recomputes them.',
    'No preemption between scheduling points (sound if nothing shared is mutated outside the lock: checked by a non-exhaustive free-running Miri pass in the thorough tier). Weak memory not modelled.', 'DESIGN §4 C19, §5'),
